@@ -10,6 +10,7 @@ reference is stable; groups with a mismatch are re-run with 20 repetitions of th
 import itertools
 import json
 import random
+import re
 import time
 
 import core
@@ -88,7 +89,7 @@ def renamings(n, rng, count):
 
 
 def c08_cases(tier, rng):
-    combos = grid(p1=K.P1S, p2=K.P2S, p4=K.P4_ALL, p5=["poly", "ortho", "straight"], size=["all", "fixed", "some"], pat=["het", "odd"])
+    combos = grid(p1=K.P1S, p2=K.P2S, p4=K.P4_ALL, p5=["poly", "ortho", "straight", "noop"], virt=[0, 1], size=["all", "fixed", "some"], pat=["het", "odd"])
     inputs = [(n, e) for n, e, r in K.family(fam_E(tier)) if len(e) >= 3]
     rng.shuffle(inputs)
     inputs = inputs[:900 if tier == "quick" else 9000]
@@ -98,13 +99,22 @@ def c08_cases(tier, rng):
         gid += 1
         c = apply(n, e, cb)
         vs = [dict(c, rel="rename", names=nm) for nm in renamings(n, rng, 3 if tier == "quick" else 6)]
+        if c["virt"] == 1:
+            # with helper nodes in the output, a user node called V<k> and a helper node called V<k> are two output nodes with
+            # the same ID: the output no longer says which is which, so "the same drawing up to the renaming" cannot be
+            # evaluated per node (the driver tells helper nodes from user nodes by their ID).  Those renamings run with the
+            # helper nodes left out of the output.
+            vs = [dict(v, virt=0) if any(re.fullmatch(r"V\d+", x) for x in v["names"]) else v for v in vs]
+            if any(v["virt"] == 0 for v in vs):
+                c = dict(c, virt=0)
+                vs = [dict(v, virt=0) for v in vs]
         yield from group(gid, c, vs)
 
 
 # ---------------------------------------------------------------------------- C17
 def c17_cases(tier, rng):
     combos = grid(p1=K.P1S, p2=K.P2S, p4=["sink", "valign", "pack", "bk", "bk0", "bk1", "bk2", "bk3"],
-                  p5=["poly", "ortho", "straight"], size=["all", "fixed", "some"], pat=["het", "odd", "wide1"], ns=[0, 1, 3], ls=[1, 5])
+                  p5=["poly", "ortho", "straight"], virt=[0, 1], size=["all", "fixed", "some"], pat=["het", "odd", "wide1"], ns=[0, 1, 3], ls=[1, 5])
     inputs = [(n, e) for n, e, r in K.family(fam_E(tier)) if len(e) >= 3]
     rng.shuffle(inputs)
     inputs = inputs[:900 if tier == "quick" else 9000]
@@ -136,6 +146,13 @@ def c18t_cases(tier, rng):
                    pat=["het", "het2", "odd", "wide1"], ns=[1, 10])
     small = random_inputs(rng, 1500 if tier == "quick" else 15000, 3, 8, density=1.3, loop_rate=0.02)
     for (n, e), cb in rotate(small, combos2, 1, rng):
+        gid += 1
+        c = apply(n, e, cb)
+        yield from group(gid, c, [dict(c, rel="mon", mon=1)])
+    # the spline router logs every rectangle, path and control point through the monitor: the phase with the most monitor calls
+    combos3 = grid(p1=K.P1S, p2=K.P2S, p4=K.P4_SIZE_AWARE, p5=["splines"], size=["fixed", "all"], pat=["odd"], ns=[2, 10], ls=[4, 10])
+    sp = random_inputs(rng, 400 if tier == "quick" else 4000, 3, 9, density=1.3, loop_rate=0.02)
+    for (n, e), cb in rotate(sp, combos3, 1, rng):
         gid += 1
         c = apply(n, e, cb)
         yield from group(gid, c, [dict(c, rel="mon", mon=1)])
@@ -193,7 +210,7 @@ def union_of(parts, pattern):
 
 
 def c09_cases(tier, rng):
-    combos = grid(p1=K.P1S, p2=K.P2S, p4=K.P4_ALL, p5=["poly", "straight", "ortho"], ns=[0, 2, 5])
+    combos = grid(p1=K.P1S, p2=K.P2S, p4=K.P4_ALL, p5=["poly", "straight", "ortho"], ns=[0, 2, 5], virt=[0, 1])
     small = [(n, e) for n, e, r in K.family("E33") if r["conn"] == 1]
     med = [(n, e) for n, e, r in K.family("E44") if r["conn"] == 1 and len(e) >= 3]
     npairs = 1200 if tier == "quick" else 12000
@@ -293,27 +310,56 @@ def run_relational(prop, tier, seed, replay, families=FAMILIES, extra_models=Non
 
 
 def recheck(work, driver, prop, res, props):
-    """rule 8b: groups with a relational mismatch are re-run with 20 more repetitions of the reference (and of
-    each part); only mismatches that persist with a stable reference are reported."""
+    """rule 8b: groups with a relational mismatch are re-run with 20 more repetitions of the reference (and of each
+    part); only mismatches that persist with a stable reference are reported.  Two passes:
+    (1) the mismatching groups alone, in fresh processes: what persists is reported (its replay file reproduces alone);
+    (2) groups whose mismatch did NOT persist alone may depend on what the process did before (state carried from one call
+        into the next): the whole case list is run again with every case in the process (shard) and position it had, plus
+        the 20 extra repetitions inside those groups; a mismatch that shows again, with all 23 references equal, is
+        reported as well (clause suffixed "_after_earlier_calls")."""
     bad_groups = {res.cases[v["case"]]["g"] for v in res.violations}
+
+    def expand(c, extra):
+        c2 = {k: x for k, x in c.items() if k != "case"}
+        out = [c2]
+        if extra:
+            if c["rel"] == "ref":
+                out.extend(dict(c2, rel="same") for _ in range(20))
+            elif c["rel"] == "part":
+                out.extend(dict(c2) for _ in range(9))
+        return out
     cs = []
     for c in res.cases.values():
         if c["g"] in bad_groups:
-            c2 = {k: x for k, x in c.items() if k != "case"}
-            cs.append(c2)
-            if c["rel"] == "ref":
-                cs.extend(dict(c2, rel="same") for _ in range(20))
-            elif c["rel"] == "part":
-                cs.extend(dict(c2) for _ in range(9))
+            cs.extend(expand(c, True))
     core.log("[%s] rule 8b: re-running %d groups with 20 extra repetitions of the reference" % (prop, len(bad_groups)))
     res2 = engine.run_layout_cases(work, driver, props, cs, tag="recheck")
-    # keep the first pass's coverage counters, take the verdicts of the second pass
+    persisted = {res2.cases[v["case"]]["g"] for v in res2.violations}
+    first = res.violations
     res.violations = []
-    for v in res2.violations:
-        c2 = res2.cases[v["case"]]
-        nid = max(res.cases) + 1
-        res.cases[nid] = dict(c2, case=nid)
-        res.violations.append(dict(v, case=nid))
+
+    def take(r2, suffix):
+        for v in r2.violations:
+            c2 = r2.cases[v["case"]]
+            nid = max(res.cases) + 1
+            res.cases[nid] = dict(c2, case=nid)
+            cl = [[p, cl_ + suffix] for p, cl_ in v["clauses"]] if suffix else v["clauses"]
+            res.violations.append(dict(v, case=nid, clauses=cl))
+    take(res2, "")
     res.states += res2.states
     res.transitions += res2.transitions
+    cleared = bad_groups - persisted
+    if cleared:
+        core.log("[%s] rule 8b, second pass: %d groups mismatched in their process but not alone; running the whole list again "
+                 "in the same processes and order, with 20 extra repetitions in those groups" % (prop, len(cleared)))
+        cs3 = []
+        for c in sorted(res.cases.values(), key=lambda c: c["case"]):
+            if "_sh" not in c or c["case"] > res.ncases:
+                continue
+            cs3.extend(expand(c, c["g"] in cleared))
+        res3 = engine.run_layout_cases(work, driver, props, cs3, tag="recheck-ctx", preshard=True)
+        res3.violations = [v for v in res3.violations if res3.cases[v["case"]]["g"] in cleared]
+        take(res3, "_after_earlier_calls")
+        res.states += res3.states
+        res.transitions += res3.transitions
     return res
